@@ -3,10 +3,10 @@ CONSTANTS
   OrigCursor = FALSE
   W = 8
   Signs = {TRUE, FALSE}
-  WideSame = {TRUE, FALSE}
+  WideSame = {TRUE}
   Starts <- AllOffsets
   Lens <- AllLens
-  Modes = {"static", "auto", "chunk"}
+  Modes = {"static", "auto"}
   Chunks = {7}
   Pools <- PoolsOne
   Waits = {TRUE}
